@@ -43,7 +43,7 @@ def nc_case(draw):
     gen.scale_weights(c, draw(st.sampled_from(gen.WEIGHT_SCALES)))
     if draw(st.integers(0, 39)) == 0:
         # hundreds of patches, in compact form (see gen.expand_counts)
-        c = {"binning": c["binning"], "npatch": draw(st.sampled_from([127, 128, 129, 181, 182, 183, 255, 256, 257, 300])), "auto": c["auto"], "expand": draw(st.integers(0, 2**32 - 1))}
+        c = {"binning": c["binning"], "npatch": draw(st.sampled_from([300, 257, 256, 255, 183, 182, 181, 129, 128, 127])), "auto": c["auto"], "expand": draw(st.integers(0, 2**32 - 1))}
     return {"kind": draw(st.sampled_from(["PatchedCounts", "PatchedSumWeights", "NormalisedCounts"])), "c": c, "prior": draw(st.sampled_from([None, None, "get_array", "sample"])), "via": draw(st.sampled_from(gen.PROVENANCE))}
 
 
